@@ -263,7 +263,7 @@ var auditKeys = []string{"timestamp", "principal", "role", "tool", "input_hash",
 
 // C20: MCP tools are gated, confined and audited.
 func C20(c *vlib.Ctx) {
-	c.Rule("the complete gating table: (31 known + 3 unknown tool names) x 3 roles x 4 flag combinations x principal present/absent x actor absent/equal/different (actor only for the tools that take one) is executed, one fresh mcp.NewServer per row over in-memory frames with minimal valid arguments, on a fixture of config file + SQLite queue file + pid file + stub run-binary; expected allow/refuse comes from a table transcribed by hand from internal/mcp/spec.md (cross-checked at run time against its '(requires --enable-...)' headings); before/after: sha256 of every file in the fixture directory (config, database, pid file), marker of the stub binary, number and fields of audit records. tools/list is compared with the callable set for each of the 24 server configurations. Confinement: config-writing tools with foreign, traversal and symlink paths, unknown keys and non-compiling content; write failures (config path occupied by a directory); a config path that does not exist yet (write_only, write_and_reload that must roll back, preview, non-compiling content; called once and twice: the path ends absent or compiling). distinct_nontrivial = distinct (tool, role, flags, principal, actor, expected) rows.")
+	c.Rule("the complete gating table: (31 known + 3 unknown tool names) x 3 roles x 4 flag combinations x principal present/absent x actor absent/equal/different (actor only for the tools that take one) is executed, one fresh mcp.NewServer per row over in-memory frames with minimal valid arguments, on a fixture of config file + SQLite queue file + pid file + stub run-binary; expected allow/refuse comes from a table transcribed by hand from internal/mcp/spec.md (cross-checked at run time against its '(requires --enable-...)' headings); before/after: sha256 of every file in the fixture directory (config, database, pid file), marker of the stub binary, number and fields of audit records. tools/list is compared with the callable set for each of the 24 server configurations. Confinement: config-writing tools with foreign, traversal and symlink paths, unknown keys and non-compiling content; write failures (config path occupied by a directory); a config path that does not exist yet (write_only, write_and_reload that must roll back, preview, non-compiling content; called once and twice: the path ends absent or compiling). Audit sink faults: a session of six mutating calls (allowed, actor mismatch, flag off, config write) on one server whose audit sink fails one Write: at most that one record may be missing. distinct_nontrivial = distinct (tool, role, flags, principal, actor, expected) rows.")
 	c.Set("exhaustive", true)
 	root := c.Scratch()
 	if err := c20MakeTemplate(root); err != nil {
@@ -418,6 +418,7 @@ func C20(c *vlib.Ctx) {
 	c20ActorShapes(c, root, &row)
 	c20WriteFailures(c, root, &row)
 	c20FreshPath(c, root, &row)
+	c20AuditSinkFault(c, root, &row)
 	c20AuditLive(c, root)
 }
 
